@@ -4,7 +4,7 @@ the named sites; C09_*_refuted witnesses for the sites).  Tie: every generated h
 point (the fallible events of the fault-free run are counted first); after the exception the ledger and registry
 totals, the validity of every surviving array and the rest of the history are compared with the model; monitors:
 balanced at the end, no illegal transition, arrays valid."""
-from . import core, lifecommon as lc
+from . import core, lifecommon as lc, rank0
 
 PID = "C09"
 
@@ -33,7 +33,10 @@ def plan(tier):
 def run(tier, seed, replay=None):
     if replay:
         res = core.Result(PID, tier, seed, level="proof")
-        lc.replay(res, PID, replay)
+        if rank0.is_rank0_replay(replay):
+            rank0.replay(res, PID, replay)
+        else:
+            lc.replay(res, PID, replay)
         return res.finish()
     res, _exes = lc.run_family(
         PID, tier, seed, plan(tier),
@@ -47,7 +50,8 @@ def run(tier, seed, replay=None):
              "row with three forms) is a history operation, with an element type whose move assignment is noexcept and whose "
              "copy assignment throws; std::terminate in the harness child is a violation (the exception did not reach the "
              "caller); non-trivial = at least 4 operations; distinct by hash of (history, k)",
-        not_exercised=["two faults in one history", "exceptions from default construction", "rank 0 and 4",
+        not_exercised=["two faults in one history", "exceptions from default construction", "rank 4",
                        "assignment between views of the SAME array (overlap)"],
         assumptions=["single injection point per run", "default construction of the element type does not throw"])
+    rank0.run_family(res, tier, seed, PID)     # dimensionality 0: h_rank0 under fault injection (coverage under "rank0")
     return res.finish()
